@@ -173,6 +173,18 @@ CHECKS = {
         note="PARTIAL: that each built-in formula equals its documented expression is not compared (libm); it is an oracle in the theorem.",
         technique="Coq proof (offset walking, both layouts) + extracted-model differential tie with probe rate constants",
         ref="6 C15"),
+    "C17": dict(
+        text="Coq: over every sequence of GetState / copy / move / set / solve operations (any length, any number of "
+             "States) no operation reaches undefined behaviour and a solve reads its own State's data "
+             "(C17_no_sequence_of_copies_moves_and_solves_is_undefined, invariant by induction over the sequence); the "
+             "pre-repair behaviour is refuted by a 3-operation witness (C17_sliced_copy_refuted). Tie: the same "
+             "sequences on the real State/Solver classes under ASan+UBSan: per-operation outcome tokens equal the "
+             "model's (a crash is the token UB:<kind>); oracle: every solve bit-identical to a fresh State, other States "
+             "untouched. The defect found (copy sliced the scratch object) is fixed in the repository (fix: c55c0fb).",
+        note="The model tracks the dynamic type of the scratch object and the data identity, not the matrices' contents; "
+             "those are covered by the bitwise oracle. Trusted: sanitizers, harness.",
+        technique="Coq proof (invariant over operation sequences) + sanitizer-backed operation-sequence tie",
+        ref="6 C17"),
     "C19": dict(
         text="Coq theorems: every logical element of a dense matrix has its own in-range slot in every layout "
              "(injectivity + range for row-major and grouped, any L>0, any shape); the Axpy/ForEach loops visit exactly the "
